@@ -556,15 +556,23 @@ def ref_verdict(payload):
     language = show(cur)
     if cur is None and poedit is not None:
         language = str(poedit)
-    return {'disparity': disparity, 'invalid': invalid, 'unable': language is None, 'language': language}
+    # X-Poedit-Language names a language only: it disagrees with the language in force iff the LANGUAGE CODES differ
+    # (territory, encoding and modifier of the locale do not matter)
+    poedit_disparity = False
+    if cur is not None and poedit is not None:
+        code = show(cur).split('.')[0].split('@')[0].split('_')[0]
+        poedit_disparity = code != str(poedit).split('.')[0].split('@')[0].split('_')[0]
+    return {'disparity': disparity, 'invalid': invalid, 'unable': language is None, 'language': language, 'poedit_disparity': poedit_disparity}
 
 
 def observed_verdict(tags_, lang):
-    disparity, invalid, unable = None, None, False
+    disparity, invalid, unable, poedit_disparity = None, None, False, False
     for t in tags_:
         w = t.split(' ')
         if w[0] == 'disparity' and w[4] == 'field':
             disparity = (common.dec_str(w[1]), w[2], common.dec_str(w[3]))
+        elif w[0] == 'disparity' and 'poedit' in (w[2], w[4]):
+            poedit_disparity = True
         elif w[0] == 'invalid-language':
             orig = common.dec_str(w[1])
             if invalid is None:
@@ -573,7 +581,7 @@ def observed_verdict(tags_, lang):
                 invalid[1].add(common.dec_str(w[3]))
         elif w[0] == 'unable':
             unable = True
-    return {'disparity': disparity, 'invalid': invalid, 'unable': unable, 'language': None if lang is None else str(lang)}
+    return {'disparity': disparity, 'invalid': invalid, 'unable': unable, 'language': None if lang is None else str(lang), 'poedit_disparity': poedit_disparity}
 
 
 def oracle_check_batch(payloads):
